@@ -227,7 +227,7 @@ example :
        .fan (.w 1 .connectBegin), .fan (.w 1 .connectEnd), .fan (.w 1 .destroyBegin), .fan (.w 1 .destroyEnd),
        .fan (.w 1 .lock), .fan (.w 1 .signal), .fan (.w 1 .unlock), .fan (.d .lock), .fan (.d .unlock),
        .fan (.d .ret)]
-    (ls.foldlM (fun s l => step s l) (init .whileWait 1 { ct := 1, ut := 1, sopt := false } scripts)).map
+    (ls.foldlM (fun s l => step s l) (init .whileWait 1 { ct := 1, ut := 1, sopt := false, selfCheck := false } scripts)).map
       (fun s => (s.now, (s.host 0).res, (s.host 1).res, (s.host 1).out.got, s.fan.dpc)) =
       some (2, Res.connTimedOut, Res.done, 3, Fan.DPC.returned) := by
   decide
